@@ -9,7 +9,7 @@
 (* disagreement; "not accepted" (the log is not consumed to its end) can   *)
 (* only mean a malformed log or a specification bug.                       *)
 (***************************************************************************)
-EXTENDS Integers, Sequences, TLC, Json, J_Prims, J_Build, J_Tables, J_C07, J_C15, J_Text, J_C17, J_C20, J_C04, J_C18, J_C06, J_C16, J_MapBodies, J_Objects, J_Misc
+EXTENDS Integers, Sequences, TLC, Json, J_Prims, J_Build, J_Tables, J_C07, J_C15, J_Text, J_C17, J_C20, J_C04, J_C18, J_C06, J_C16, J_MapBodies, J_Objects, J_Misc, J_Chain
 
 CONSTANT TraceFile
 Log == ndJsonDeserialize(TraceFile)
@@ -50,6 +50,7 @@ Judge(e) ==
          [] e.op = "MappingBodies" -> JMappingBodies(e)
          [] e.op = "ApiSweep" -> JApiSweep(e)
          [] e.op = "Misc" -> JMisc(e)
+         [] e.op = "Chain" -> JChain(e)
          [] e.op = "ObjNew" -> JObjNew(e)
          [] e.op = "ObjCall" -> JObjCall(e, MemFor(e).obj)
          [] e.op = "SignedProbe" -> JSignedProbe(e)
